@@ -28,7 +28,7 @@ func c09Gen(r *Rand, tier string, scale int, emit func(Fields)) {
 	}
 	senderChoices := []int{1, 2, 8, 64}
 	procs := []int{1, 2, 4, 16}
-	alphabet := []byte("abcdefghijklmnopqrstuvwxyzABCDEFGHIJKLMNOPQRSTUVWXYZ0123456789 .,:;!?#@\x01\x00\xff")
+	alphabet := []byte("abcdefghijklmnopqrstuvwxyzABCDEFGHIJKLMNOPQRSTUVWXYZ0123456789 .,:;!?#@%\\\"\x01\x00\xff")
 	for c := 0; c < scale; c++ {
 		ns := senderChoices[r.Intn(len(senderChoices))]
 		total := r.Range(1, 500)
@@ -107,12 +107,17 @@ func c09Exec(in Fields) Fields {
 	w := ws.Call(func() {
 		for s := 0; s < ns; s++ {
 			ls := issued[s]
+			viaPong := s%4 == 3 // every fourth sender goes through a command method instead of Raw
 			wg.Add(1)
 			body := func() {
 				defer wg.Done()
 				<-start
-				for _, l := range ls {
-					ws.Conn.Raw(l)
+				for q, l := range ls {
+					if viaPong && q%2 == 1 {
+						ws.Conn.Pong(l) // wire: "PONG :" + l  (the Entry strips that prefix before reading the tag)
+					} else {
+						ws.Conn.Raw(l)
+					}
 				}
 			}
 			switch s % 3 {
